@@ -299,6 +299,17 @@ func (s *Session) Mail(from string, opts *smtp.MailOptions) error {
 	s.msgLock.Lock()
 	defer s.msgLock.Unlock()
 
+	if s.delivery != nil {
+		// RFC 5321 Section 4.1.4: MAIL is not permitted while a mail
+		// transaction is in progress. go-smtp passes it through; starting
+		// another delivery here would leave the current one open for ever.
+		return &smtp.SMTPError{
+			Code:         503,
+			EnhancedCode: smtp.EnhancedCode{5, 5, 1},
+			Message:      "Nested MAIL command",
+		}
+	}
+
 	if !s.endp.deferServerReject {
 		// Will initialize s.msgCtx.
 		msgID, err := s.startDelivery(s.sessionCtx, from, *opts)
